@@ -213,3 +213,16 @@ def _free_sharded(params):
 
 
 HARNESSES["seeded"].free = _free_sharded
+
+
+def thorough_extra(seed):
+    jobs = []
+    for l0, sub in ((0, [1, 3]), (4, [5, 10]), (6, [8, 11])):
+        jobs.append({"harness": "seeded", "params": {"cfg": CM, "ndef": 2, "l0": l0, "submenu": sub, "free_title": True, "free_text": True},
+                     "weight": 60, "cpu_cap": 9000, "wall_cap": 10000, "path_cap": 120})
+    for image in (False, True):
+        for cfg in (CM, JS):
+            for vary in (("dt", "tx") if cfg is CM else ("d", "t", "x")):
+                jobs.append({"harness": "forms", "params": {"cfg": cfg, "image": image, "vary": vary}, "weight": 30, "cpu_cap": 9000, "wall_cap": 10000,
+                             "path_cap": 120})
+    return jobs
